@@ -4,7 +4,7 @@
 (* makes one TLC step of a whole call, so a state is a history (recorded in hist with    *)
 (* the predicted outcome and cache contents after every call) and the dump of all states *)
 (* is the set of all histories up to MaxHist actions, replayed by harness/c06.py.         *)
-EXTENDS GlomCalls
+EXTENDS GlomCalls, Json
 
 CONSTANTS PoolSize, MaxHist
 
@@ -35,4 +35,9 @@ C06Pool == SubSeq(FullPool, 1, PoolSize)
 
 NActs == procs[1].nc + ntog + Len(regs)
 Bound == NActs <= MaxHist
+\* fine-grained configuration (MC_C06_fine.cfg, Gates = all): complete histories are printed so that
+\* the harness can count which steps and branches of the mechanism were taken (vacuity check)
+PrintHistory == (Quiescent /\ NActs = MaxHist) => PrintT(ToJson([hist |-> hist]))
+\* the harness reads the pool from TLC's output (printed once at start-up)
+ASSUME PrintT(ToJson([pool |-> C06Pool]))
 ====================================================================================
